@@ -125,7 +125,7 @@ CHECKS = {
     },
     "C16": {
         "level": "fault_enumeration",
-        "parts": [{"gen": "C16", "quick": 600, "thorough": 600, "exhaustive": True}],
+        "parts": [{"gen": "C16", "quick": 606, "thorough": 606, "exhaustive": True}],
         "exhaustive_claim": True,
         "rule": "exhaustive over the documented names (570 cases, the seed is the case index): every cipher name (7 + the chacha20-ietf-poly1305 alias) x every server mode (tcp, udp, tcp_and_udp, quic, tcp_and_quic), "
                 "default modes, every client mode x protocol, every Shadowsocks-2022 key length 0..48 bytes as client password, server password and user-table key, and 26 undocumented cipher / protocol / mode strings "
@@ -200,6 +200,7 @@ CHECKS = {
         "level": "exploration",
         "parts": [{"gen": "C09", "quick": 640, "thorough": 12800, "quick_deadline_s": 420, "thorough_deadline_s": 3000},
                   {"gen": "C09udp", "quick": 1200, "thorough": 24000},
+                  {"gen": "C09sid", "quick": 400, "thorough": 8000},
                   {"engine": "shuttle", "quick": 20000, "thorough": 1000000},
                   {"engine": "miri", "quick": 6, "thorough": 96}],
         "rule": "two engines. Task level (simnet): a batch of 2-8 (10%: 9-24, thorough -64) concurrent TCP flows through the real client and server over a cycling (protocol, cipher, tcp/tls/ws/wss) cell with drawn network knobs is run once all together "
